@@ -17,8 +17,10 @@ import time
 from pathlib import Path
 
 ROOT = Path(__file__).resolve().parent.parent
-EVIDENCE_DIR = ROOT / "evidence"
-REPLAY_DIR = ROOT / "replays"
+# seed-evaluation runs (tools/seed_eval.sh) redirect their output so that the committed evidence always
+# comes from the unchanged tree
+EVIDENCE_DIR = Path(os.environ.get("VERIF_EVIDENCE_DIR", ROOT / "evidence"))
+REPLAY_DIR = Path(os.environ.get("VERIF_REPLAY_DIR", ROOT / "replays"))
 KNOWN_FILE = ROOT / "known_findings.json"
 
 DISCHARGED = "discharged"
